@@ -35,15 +35,16 @@ Theorem c15_int_spec_roundtrip : forall sp ssp z rest, int_directive_ok rt_cfg s
 Proof. exact RoundTripInst.rt_int_spec_roundtrip. Qed.
 Print Assumptions c15_int_spec_roundtrip.
 
-(* sequences of Strings and Ints with separators, at any start position, String sink and source *)
-Theorem c15_show_seq_string : forall its pre rest, show_seq_ok rt_cfg its rest ->
+(* sequences of Strings and Ints with separators, at any start position, String sink and source.
+   lits_ok: every run of literal text (the pieces between "%%"s) that ends in white space is followed
+   by something that does not start with white space — scanf's white-space directive would eat it *)
+Theorem c15_show_seq_string : forall its pre rest, show_seq_ok rt_cfg its rest -> lits_ok rt_cfg its rest ->
   scan_str rt_cfg (fst (print_to_string rt_cfg pre (length pre) its) ++ rest)%list (length pre) (List.map sitem_of its) nil
   = SOk (values_of its) (snd (print_to_string rt_cfg pre (length pre) its)).
 Proof. exact RoundTripInst.rt_show_seq_string. Qed.
 Print Assumptions c15_show_seq_string.
 
-(* the same through a File; lits_ok: a literal that ends in white space is not followed by white space
-   (scanf's white-space directive would eat it) *)
+(* the same through a File *)
 Theorem c15_show_seq_file : forall its old rest, show_seq_ok rt_cfg its rest -> lits_ok rt_cfg its rest ->
   scan_file rt_cfg (List.skipn (length old) (fst (print_to_file rt_cfg old (length old) its) ++ rest)%list) (length old)
     (List.map sitem_of its) nil
@@ -83,7 +84,7 @@ Print Assumptions c15_float_show_look.
    (wf_seq lists the side conditions item by item), separated by literal
    text, at any start position, String sink and source; value_close = Ints and Strings equal, Floats
    within the printed precision *)
-Theorem c15_seq_roundtrip_string : forall its sits pre rest, wf_seq rt_cfg its sits rest ->
+Theorem c15_seq_roundtrip_string : forall its sits pre rest, wf_seq rt_cfg its sits rest -> lits_ok rt_cfg its rest ->
   exists vs',
     scan_str rt_cfg (fst (print_to_string rt_cfg pre (length pre) its) ++ rest)%list (length pre) sits nil
     = SOk vs' (snd (print_to_string rt_cfg pre (length pre) its))
@@ -104,7 +105,7 @@ Print Assumptions c15_seq_roundtrip_file.
 (* D8 (repaired): through "%f" the scanner stores a float; 123456789.123456 comes back as 123456792.0 *)
 Theorem c15_float_look_single_refuted :
   exists b b', decode_double b <> None /\
-    scan_num (Build_config nil nil true false true) (spec_f false) (print_num (spec_f false) (VFloat b))
+    scan_num (Build_config nil nil true false true true true) (spec_f false) (print_num (spec_f false) (VFloat b))
     = Some (VFloat b', 16) /\ b = 4728057454355442549%N /\ b' = 4728057454548484096%N.
 Proof. exact RoundTripFloat.float_look_single_refuted. Qed.
 Print Assumptions c15_float_look_single_refuted.
@@ -115,6 +116,30 @@ Theorem c15_scan_d_zero_extends_refuted :
     scan_num cfg_no_signext spec_d (print_num spec_d (VInt z)) <> Some (VInt z, length (print_num spec_d (VInt z))).
 Proof. exact RoundTripInst.rt_scan_d_zero_extends_refuted. Qed.
 Print Assumptions c15_scan_d_zero_extends_refuted.
+
+(* D22 (repaired): scan_from added the LENGTH of a literal piece to the position; on a File the piece " "
+   had consumed the padding of the following "%5li" as well, so the position returned was 7 for 10
+   characters (String: 10); with the measured advance both give 10 *)
+Theorem c15_literal_length_refuted :
+  let its := (PShow (VStr (97 :: 98 :: nil)) :: PLit (32 :: nil) :: PNum spec_5li (VInt 42) :: nil)%N%Z%list in
+  let sits := (SLook TStr :: SLit (32 :: nil) :: SNum spec_li :: nil)%N%list in
+  length (print_items cfg_old_literals its) = 10 /\
+  scan_str cfg_old_literals (print_items cfg_old_literals its) 0 sits nil = SOk (VStr (97 :: 98 :: nil) :: VInt 42 :: nil)%N%Z%list 10 /\
+  scan_file cfg_old_literals (print_items cfg_old_literals its) 0 sits nil = SOk (VStr (97 :: 98 :: nil) :: VInt 42 :: nil)%N%Z%list 7 /\
+  scan_file rt_cfg (print_items rt_cfg its) 0 sits nil = SOk (VStr (97 :: 98 :: nil) :: VInt 42 :: nil)%N%Z%list 10.
+Proof. exact RoundTripInst.rt_literal_length_refuted. Qed.
+Print Assumptions c15_literal_length_refuted.
+
+(* D23 (repaired): "%%" advanced the position by 2 for one character: "5%7" written with "%li%%%li"
+   could not be read back with the same format (FormatError) *)
+Theorem c15_percent_two_refuted :
+  let its := (PShow (VInt 5) :: PLit (37 :: nil) :: PShow (VInt 7) :: nil)%N%Z%list in
+  let sits := (SLook TInt :: SLit (37 :: nil) :: SLook TInt :: nil)%N%list in
+  print_items cfg_old_literals its = (53 :: 37 :: 55 :: nil)%N%list /\
+  scan_str cfg_old_literals (print_items cfg_old_literals its) 0 sits nil = SRaise (VInt 5 :: nil)%Z%list /\
+  scan_str rt_cfg (print_items rt_cfg its) 0 sits nil = SOk (VInt 5 :: VInt 7 :: nil)%Z%list 3.
+Proof. exact RoundTripInst.rt_percent_two_refuted. Qed.
+Print Assumptions c15_percent_two_refuted.
 
 (* non-vacuity *)
 Example c15_ex_nul_free : nul_free ex_string.
@@ -131,3 +156,5 @@ Example c15_ex_int_directive_d : int_directive_ok rt_cfg spec_p08d spec_d (-2147
 Proof. exact RoundTripInst.ex_int_directive_d. Qed.
 Example c15_ex_int_directive_lX : int_directive_ok rt_cfg spec_lX spec_lx (-5) ex_rest.
 Proof. exact RoundTripInst.ex_int_directive_lX. Qed.
+Example c15_ex_lits_ok_pct : lits_ok rt_cfg ex_items_pct ex_rest /\ show_seq_ok rt_cfg ex_items_pct ex_rest.
+Proof. exact RoundTripInst.ex_lits_ok_pct. Qed.
